@@ -51,8 +51,10 @@ class StdVector(Plugin):
 
     # ---- iterators: T* (forward) / T* one past the element (reverse) ----
     IT_RE = re.compile(r'__normal_iterator<(?:const )?(.*?) \*(?:const)?, *std::vector<')
+    DQ_RE = re.compile(r'_Deque_iterator<(.*?), *(?:const )?\1 *&, *(?:const )?\1 *\*>')
     def iter_elem(self, qt):
-        m = self.IT_RE.search(qt.replace('std::__cxx11::', 'std::'))
+        q = qt.replace('std::__cxx11::', 'std::')
+        m = self.IT_RE.search(q) or self.DQ_RE.search(q)
         return m.group(1).strip() if m else None
     def node_iter(self, node):
         t = node.get('type', {})
@@ -90,6 +92,10 @@ class StdVector(Plugin):
             a0 = a[0]
             if a0.startswith('(*') and a0.endswith(')') and self.decls.get(cn, '').startswith('struct '): pass
             return '%s_push_back(%s, %s)' % (cn, recv, a0)
+        if name == 'erase' and len(a) == 2:
+            return '%s_erase_to_end(%s, %s, %s)' % (cn, recv, a[0], a[1])
+        if name == 'swap' and len(a) == 1:
+            return 'V_SWAP(struct %s, *%s, *%s)' % (cn, recv, unit.addr_of(args[0]))
         if name in ('back', 'front'):
             return '(*%s_%s(%s))' % (cn, name, recv)
         if name == 'at':
@@ -115,6 +121,33 @@ class StdVector(Plugin):
             if op == 'operator--': return ('(++%s)' if kind == 'reverse' else '(--%s)') % x
             if op == 'operator->': return ('(%s - 1)' if kind == 'reverse' else '(%s)') % x
             if op == 'operator*': return ('(*(%s - 1))' if kind == 'reverse' else '(*%s)') % x
+        return None
+
+    def construct_expr(self, unit, n):
+        if self.node_iter(n):
+            ks = unit.kids(n)
+            if len(ks) == 1 and self.node_iter(ks[0]): return unit.expr(ks[0])      # iterator copy
+        return None
+
+    def free_call(self, unit, name, rd, args, n):
+        if name == 'remove_if' and len(args) == 3 and self.node_iter(args[0]):
+            # std::remove_if over vector/deque iterators with a lambda: stable compaction (model of the library algorithm)
+            elem = unit.ctype(self.node_iter(args[0])[1])
+            lam, largs, rt = unit.lift_lambda(args[2])
+            proto_l = unit.emitted_protos[lam]; ps = proto_l[proto_l.index('(') + 1:proto_l.rindex(')')]
+            plist = [x.strip() for x in ps.split(',')][:-1]            # the last parameter is the element
+            an = [x.rsplit(' ', 1)[-1].lstrip('*') for x in plist]
+            h = lam.replace('__lambda', '__remove_if')
+            proto = 'static %s *%s(%s)' % (elem, h, ', '.join(['%s *first' % elem, '%s *last' % elem] + plist))
+            lc = unit.spec.get(('loop', h, 1)); keep = unit.spec.get(('ghost', h, 'keep')) or ''; ent = unit.spec.get(('ghost', h, 'entry')) or ''
+            for k in (('loop', h, 1), ('ghost', h, 'keep'), ('ghost', h, 'entry')):
+                if k in unit.spec: unit.used_keys.add(k)
+            drop = unit.spec.get(('ghost', h, 'drop')) or ''
+            if ('ghost', h, 'drop') in unit.spec: unit.used_keys.add(('ghost', h, 'drop'))
+            body = '  size_t n = (size_t)(last - first), out = 0, in = 0;\n  %s\n  for (; in < n; ++in)\n%s  {\n    if (!%s(%s))\n    {\n      %s\n      if (out != in) first[out] = first[in];\n      ++out;\n    }\n    else\n    {\n      %s\n    }\n  }\n  return first + out;\n' % (
+                ent, ''.join('  ' + l + '\n' for l in lc.strip('\n').split('\n')) if lc else '', lam, ', '.join(an + ['&first[in]']), keep, drop)
+            unit.add_helper(h, proto, proto + '\n{\n' + body + '}\n')
+            return '%s(%s)' % (h, ', '.join([unit.expr(args[0]), unit.expr(args[1])] + largs))
         return None
 
     def range_for(self, unit, n, ind):
@@ -386,10 +419,15 @@ class OpaqueJson(Plugin):
 
 class Chrono(Plugin):
     """std::chrono::duration<...> as a plain 64-bit tick count (milliseconds / nanoseconds ...): construction from an integer
-    and count() are identity.  Only the operations listed here are supported."""
+    and count() are identity.  With abstract_time=True also time_point (int64), steady_clock::now() (any value) and every
+    chrono operator (comparison: any answer; arithmetic: any value) - for code where clock readings only feed statistics/log warnings."""
+    def __init__(self, abstract_time=False):
+        self.abstract_time = abstract_time
     def is_dur(self, qt):
         q = canon_type(qt)
-        return bool(re.match(r'^std::chrono::(duration<.*>|milliseconds|seconds|microseconds|nanoseconds)$', q))
+        if re.match(r'^std::chrono::(duration<.*>|milliseconds|seconds|microseconds|nanoseconds)$', q): return True
+        if self.abstract_time and re.match(r'^std::chrono::(time_point<.*>|(steady_clock|system_clock)::(time_point|duration))$', q): return True
+        return False
     def node_dur(self, node):
         t = node.get('type', {})
         return any(qt and self.is_dur(qt) for qt in (t.get('desugaredQualType'), t.get('qualType')))
@@ -398,13 +436,48 @@ class Chrono(Plugin):
     def construct_expr(self, unit, n):
         if not self.node_dur(n): return None
         ks = unit.kids(n)
-        if len(ks) == 1: return '((int64_t)(%s))' % unit.expr(ks[0])
+        if len(ks) == 1:
+            if self.abstract_time and self.node_dur(ks[0]): return 'v_nondet_i64()'       # conversion between periods / clocks
+            return '((int64_t)(%s))' % unit.expr(ks[0])
         if not ks: return '((int64_t)0)'
         return None
     def member_call(self, unit, n, me, base, args):
         if self.node_dur(base) and me['name'] == 'count':
             return '(%s)' % unit.expr(base)
         return None
+    def free_call(self, unit, name, rd, args, n):
+        if self.abstract_time and name == 'now' and not args and self.node_dur(n): return 'v_nondet_i64()'
+        if self.abstract_time and name == 'duration_cast' and len(args) == 1: return 'v_nondet_i64()'
+        return None
+    def operator_call(self, unit, n, rd, args):
+        if not self.abstract_time or not args or not any(self.node_dur(a) for a in args): return None
+        op = rd.get('name')
+        if op in ('operator<', 'operator>', 'operator<=', 'operator>=', 'operator==', 'operator!='):
+            return '(%s, v_nondet_bool())' % ', '.join('(void)%s' % unit.expr(a) for a in args)
+        if op in ('operator-', 'operator+', 'operator/', 'operator*', 'operator%'):
+            return '(%s, v_nondet_i64())' % ', '.join('(void)%s' % unit.expr(a) for a in args)
+        if op in ('operator=', 'operator+=', 'operator-=') and len(args) == 2:
+            if op == 'operator=': return '(%s = %s)' % (unit.expr(args[0]), unit.expr(args[1]))
+            return '(%s = ((void)%s, v_nondet_i64()))' % (unit.expr(args[0]), unit.expr(args[1]))
+        return None
+
+
+class OpaqueTypes(Plugin):
+    """library types the unit only stores (never looks into): one-byte structs.  patterns: {regex over the canonical C++ type: C struct name}"""
+    def __init__(self, patterns):
+        self.patterns = dict(patterns); self.names = set('struct ' + v for v in self.patterns.values())
+    def type_for(self, name, unit):
+        q = canon_type(name)
+        for rx, cn in self.patterns.items():
+            if re.match(rx, q):
+                if '~' + cn not in unit.emitted_types:
+                    unit.emitted_types['~' + cn] = 'struct %s { char opaque; };' % cn; unit.type_order.append('~' + cn)
+                return 'struct ' + cn
+        return None
+    def is_model_type(self, ct): return ct.replace('const ', '').strip() in self.names
+    def field_init(self, unit, f, ct, target, e): return []
+    def field_dtor(self, unit, f, ct, target): return []
+    def local_object(self, unit, v, ct, name, ks, p): unit.w(p + '%s %s;' % (ct.replace('const ', ''), name))
 
 
 class StringStreamSink(Plugin):
